@@ -236,8 +236,8 @@ pub fn default_runs(check: &str, tier: Tier) -> u64 {
         "C11" | "C12" => (3000, 60_000),
         "C05" => (4000, 200_000),
         "C18" => (1500, 40_000),
-        "C10" => (60_000, 3_000_000),
-        "C16" => (30_000, 1_500_000),
+        "C10" => (400_000, 8_000_000),
+        "C16" => (200_000, 4_000_000),
         "C13" | "C15" => (1500, 30_000),
         "C07" => (2500, 80_000),
         _ => (1000, 20_000),
